@@ -70,7 +70,7 @@ def none_test(t: Term) -> Optional[Tuple[Term, bool]]:
     return None
 
 
-def search_tests(ev, guards) -> List[Tuple[Term, Term, Term]]:
+def search_tests(ev, guards, found: bool = True) -> List[Tuple[Term, Term, Term]]:
     """Searches among the guards of a path that found something: [(iterable, element symbol, condition on the element)]
     for `any(c(x) for x in it)`, `any(map(f, it))`, `next(filter(f, it), None) is not None` and
     `next((x for x in it if c(x)), None) is not None` taken on the side where an element exists."""
@@ -85,6 +85,11 @@ def search_tests(ev, guards) -> List[Tuple[Term, Term, Term]]:
         if isinstance(f, (Lam, FuncRef, BoundMethod)):
             st = _State()
             return ev.apply(f, (each,), (), st, 0)
+        if isinstance(f, Attr) and f.name == '__contains__':
+            return Op('in', (each, f.base))     # container.__contains__ as a predicate
+        from .terms import Ite
+        if isinstance(f, Ite) and isinstance(f.a, Attr) and isinstance(f.b, Attr) and f.a.name == f.b.name == '__contains__':
+            return Op('in', (each, Ite(f.test, f.a.base, f.b.base)))
         return None
 
     def source(src: Term) -> Optional[Tuple[Term, Term, Term]]:
@@ -99,11 +104,27 @@ def search_tests(ev, guards) -> List[Tuple[Term, Term, Term]]:
                 return src.args[1], each, ((c,), each) if src.func.name == 'filter' else ((), c)
         return None
 
+    def unwrap(src: Term) -> Term:
+        """tuple(...) / list(...) / itertools.islice(x, n) around a source say nothing about whether it is empty"""
+        while isinstance(src, Call) and isinstance(src.func, Ext) and src.args and \
+                (src.func.name in ('tuple', 'list') and len(src.args) == 1 or src.func.name.split('.')[-1] == 'islice' and len(src.args) == 2):
+            src = src.args[0]
+        return src
     for t, pol in guards:
         neg = False
         while isinstance(t, Op) and t.op == 'not' and len(t.args) == 1:
             t, neg = t.args[0], not neg
-        pol2 = pol != neg
+        pol2 = (pol != neg) == found
+        # the truth value of a filtered collection: [x for x in it if c] / tuple(islice(filter(p, it), 1))
+        u = unwrap(t)
+        if (isinstance(u, Comp) and u.kind in ('list', 'gen', 'set') and len(u.gens) == 1 and u.gens[0][2]) or \
+                (isinstance(u, Call) and isinstance(u.func, Ext) and u.func.name == 'filter' and len(u.args) == 2 and u is not t or (isinstance(u, Call) and isinstance(u.func, Ext) and u.func.name == 'filter' and isinstance(t, Call))):
+            s0 = source(u)
+            if s0 and pol2:
+                it, each, (ifs, elt) = s0
+                if elt == each and ifs:
+                    out.append((it, each, mk_and(tuple(ifs))))
+            continue
         if isinstance(t, Call) and isinstance(t.func, Ext) and t.func.name == 'any' and len(t.args) == 1 and pol2:
             s = source(t.args[0])
             if s:
